@@ -463,17 +463,26 @@ func (u *Unit) define(env *Env, hint string, t Term) Term {
 // fresh allocation: returns a new reference
 func (u *Unit) alloc(env *Env, hint string) Term {
 	r := u.D.Fresh(hint, SRef)
-	env.assume(Same(u.birth(r), env.clock))
-	env.assume(Not(Same(r, Term{"nil_Ref", SRef})))
+	u.assumeFact(env, Same(u.birth(r), env.clock))
+	u.assumeFact(env, Not(Same(r, Term{"nil_Ref", SRef})))
 	nc := u.D.Fresh("clk", SInt)
-	env.assume(Same(nc, add(env.clock, IntLit(1))))
+	u.assumeFact(env, Same(nc, add(env.clock, IntLit(1))))
 	env.clock = nc
 	return r
 }
 
 // "this reference value exists now": allocated before the current clock
 func (u *Unit) assumeKnownRef(env *Env, r Term) {
-	env.assume(lt(u.birth(r), env.clock))
+	u.assumeFact(env, lt(u.birth(r), env.clock))
+}
+
+// an assumption that is a fact about the execution (existence of references, results of allocation, clock monotonicity,
+// typing) and not a condition on the inputs: when a function literal is summarised such facts go to the consequent
+func (u *Unit) assumeFact(env *Env, t Term) {
+	if u.inClosure > 0 {
+		u.calleeFacts[t.S] = true
+	}
+	env.assume(t)
 }
 
 // ---------------------------------------------------------------------------------------------
@@ -1415,11 +1424,11 @@ func (u *Unit) frameAxiom(env *Env, name string, nh Term) {
 func (u *Unit) typeInvariant(env *Env, t Term, ty types.Type) {
 	switch t.Sort {
 	case SSlice:
-		env.assume(u.validSliceT(t))
+		u.assumeFact(env, u.validSliceT(t))
 	}
 	if !u.BV && t.Sort == SInt && isIntegerT(ty) {
 		if isUnsigned(ty) {
-			env.assume(le(IntLit(0), t))
+			u.assumeFact(env, le(IntLit(0), t))
 		}
 	}
 }
